@@ -371,6 +371,14 @@ fn inflight_replay(hist: &[IOp]) -> (u64, Option<(String, String)>, bool) {
                 }
             }
         }
+        // a slow-block trace record describes one request: once that request is released (block
+        // arrived, peer left, timed out) the record must go with it, otherwise a later request for the
+        // same block inherits the old mark and is released before its own time-out
+        for b in post.2.keys() {
+            if !post.1.contains_key(b) {
+                return fail("stale-trace-record", format!("block {:?} has a slow-block trace record but no request in flight", b.0));
+            }
+        }
         for (b, (p, _)) in &post.1 {
             if !post.0.get(p).map(|s| s.contains(b)).unwrap_or(false) {
                 dangling_seen = true; // reported, not judged (the statement does not demand the converse)
